@@ -63,9 +63,18 @@ BadWith(lv, b, NO) ==
   UNION { UNION { {Case(lv, <<b, s>>), Case(lv, <<s, b>>)} : s \in Settings2(n2) } : n2 \in NO \ {b.n} }
 BadPairs(lv, NB, NO, G) == UNION { UNION { BadWith(lv, b, NO) : b \in Bad(n1, G) } : n1 \in NB }
 
+Triples(lv, N, S(_)) ==
+  UNION { UNION { UNION { {Case(lv, <<x, y, z>>) : x \in S(n1), y \in S(n2), z \in S(n3)}
+                          : n3 \in N \ {n1, n2} } : n2 \in N \ {n1} } : n1 \in N }
+
 \* options whose documented effect depends on another option
 Focus == {"enable_nested_struct", "template", "gen_deep_equal"}
 Neighbours == {"gen_setter", "naming_style", "template", "enable_nested_struct"}
+\* every option that takes part in a documented implication, requirement or exclusion
+Core == {"apache_warning", "apache_adaptor", "with_field_mask", "with_reflection", "gen_json_tag",
+         "always_gen_json_tag", "snake_style_json_tag", "lower_camel_style_json_tag", "streamx",
+         "thrift_streaming", "template", "enable_nested_struct", "gen_deep_equal", "naming_style",
+         "ignore_initialisms"}
 
 Random == {RandomLists[i] : i \in 1..Len(RandomLists)}
 
@@ -93,5 +102,6 @@ UOf(t) == CASE t = "quick" -> UQuick(0)
             [] t = "thorough-all-backend" -> BackendOnly(UThoroughBackend(0) \cup UThoroughCli(0))
             [] t = "thorough-backend" -> UThoroughBackend(0)
             [] t = "thorough-cli" -> UThoroughCli(0)
+            [] t = "thorough-triples" -> Triples("backend", Core, Settings2) \cup Triples("cli", Core, Settings2)
             [] t = "lists" -> Random
 =============================================================================
